@@ -138,6 +138,15 @@ Theorem C10_v1_lookup_cases :
 Proof. exact v1_lookup_cases. Qed.
 Print Assumptions C10_v1_lookup_cases.
 
+(* the iteration order of the legacy proposer_config map is irrelevant *)
+Theorem C10_v1_map_order_irrelevant :
+  forall (c : config1) (ps' : list (N * option proposer1)) (key fbfee fbgas : N),
+    wf_config1 c -> Permutation (c1_props c) ps' ->
+    proposer_config_v1 {| c1_props := ps'; c1_default := c1_default c |} key fbfee fbgas =
+    proposer_config_v1 c key fbfee fbgas.
+Proof. exact v1_order_irrelevant. Qed.
+Print Assumptions C10_v1_map_order_irrelevant.
+
 (* docs/execlayer.md words the legacy precedence PER VALUE (entry, else default_config, else
    fallback: [resolve_v1_doc]).  Full statement:
      forall c key fbfee fbgas, proposer_config_v1 c key fbfee fbgas = resolve_v1_doc c key fbfee fbgas.
@@ -291,3 +300,39 @@ Qed.
 
 Example C10_example_version_refused : unmarshal (JObj [(FVersion, JNum 1)]) = None.
 Proof. reflexivity. Qed.
+
+(* the same configuration with every relay map written in another order *)
+Definition ex_cfg_permuted : config2 :=
+  {| e_fee := Some 11; e_gas := None; e_grace := Some 1000000; e_min := None;
+     e_relays := [(2, ex_br None None); (1, ex_br (Some 12) (Some 100))];
+     e_props := [ {| p_sel := SelAcct 5; p_fee := Some 13; p_gas := Some 200; p_grace := None; p_min := None;
+                     p_reset := false; p_relays := [(3, ex_pr false None); (2, ex_pr true None); (1, ex_pr false (Some 300))] |};
+                  {| p_sel := SelKey 9; p_fee := Some 14; p_gas := None; p_grace := None; p_min := None;
+                     p_reset := true; p_relays := [] |} ] |}.
+
+Example C10_example_equiv : config2_equiv ex_cfg ex_cfg_permuted.
+Proof.
+  constructor; try reflexivity.
+  - cbn. apply perm_swap.
+  - cbn. constructor; [|constructor; [|constructor]].
+    + constructor; try reflexivity. cbn.
+      eapply perm_trans; [apply perm_swap|]. eapply perm_trans; [apply perm_skip, perm_swap|]. apply perm_swap.
+    + constructor; reflexivity.
+Qed.
+
+Example C10_example_permuted_outcome :
+  proposer_config_v2 ex_cfg_permuted {| v_key := 9; v_accts := [5] |} 99 30000000 =
+    Some {| pc_fee := 13;
+            pc_relays := [ {| rc_addr := 1; rc_pk := Some 7; rc_fee := 13; rc_gas := 300; rc_grace := 2000000; rc_min := (5, 17%Z) |};
+                           {| rc_addr := 3; rc_pk := None; rc_fee := 13; rc_gas := 200; rc_grace := 2000000; rc_min := dec_zero |} ] |}.
+Proof. reflexivity. Qed.
+
+(* the legacy per-value reading and the code on the document's own example *)
+Example C10_example_v1_fieldwise :
+  let c := {| c1_props := [(1, Some {| q_fee := 11; q_gas := 0; q_builder := None |})];
+              c1_default := Some {| q_fee := 12; q_gas := 0;
+                                    q_builder := Some {| b_enabled := true; b_grace := 0; b_relays := [1; 2] |} |} |} in
+  pc_relays (proposer_config_v1 c 1 99 30000000) = [] /\
+  map rc_addr (pc_relays (resolve_v1_doc c 1 99 30000000)) = [1; 2] /\
+  v1_entry_complete c 1 = false /\ v1_entry_complete c 2 = true.
+Proof. repeat split. Qed.
